@@ -439,6 +439,9 @@ def make_cases(C, kind):
     cases = []
     if kind == 0:
         cases.append(dict(name="null", pre={}, post={}, sc=0, src=0, dst=0))
+        # Move::NULL names a8 as both squares: whatever stands there must be left alone (by make and by unmake)
+        cases.append(dict(name="null/a8-own", pre={0: "sc"}, post={0: "sc"}, sc=0, src=0, dst=0))
+        cases.append(dict(name="null/a8-enemy", pre={0: "dc"}, post={0: "dc"}, sc=0, src=0, dst=0))
     elif kind == 1:
         for sc_name, sc in (("pawn", P), ("piece", "sc")):
             for dcn, dc in (("quiet", 0), ("capture", "dc")):
